@@ -10,6 +10,10 @@ from .C16 import factors, signed_factors, terms
 
 
 def run(ctx):
+    from . import C15_kernels as _K
+
+    _K.accumulator_reset(ctx, rule="R17.6")  # mode-summation kernels: phase reset per mode, every point and mode visited (shared with C15)
+    _K.full_extent(ctx, rule="R17.6")
     from .C12 import inverse_pairs
 
     inverse_pairs(ctx, rule="R17.5")  # periodicity holds along the model's main axes only if positions are derotated exactly as isometrize documents (shared with C12)
